@@ -31,6 +31,9 @@ func bystanderSpec(prefix string, id uint64) aSpec {
 	return sp
 }
 
+// knownLastLen names the listed finding that excuses a difference in the last matched-bid count (C15 only).
+var knownLastLen = ""
+
 type recSnap struct {
 	auction types.AuctionI
 	bids    []types.Bid
@@ -93,7 +96,14 @@ func assertFrame(label string, before, after recSnap) {
 			nd.Assert(label+".allow-list", x.Bidder == y.Bidder && nd.And(x.MaxBidAmount.Equal(y.MaxBidAmount)))
 		}
 	}
-	nd.Assert(label+".counters", before.hasSeq == after.hasSeq && before.bidSeq == after.bidSeq && before.lastLen == after.lastLen)
+	nd.Assert(label+".counters", before.hasSeq == after.hasSeq && before.bidSeq == after.bidSeq)
+	if knownLastLen != "" {
+		nd.Known(knownLastLen, before.lastLen != after.lastLen)
+	}
+	nd.Assert(label+".last-matched-count", before.lastLen == after.lastLen)
+	if knownLastLen != "" {
+		nd.ClearKnown()
+	}
 }
 
 // notDue constrains the bystander so that the coming block has nothing to do for it.
